@@ -310,8 +310,16 @@ def ref_parse_avps(data: bytes):
     return out
 
 
+def dict_entry(code, vendor=0):
+    """the dictionary row of (code, vendor) read from the tables themselves — the harness must not depend on the
+    library's own lookup function behaving"""
+    if not vendor:
+        return A.AVP_DICTIONARY.get(code)
+    return A.AVP_VENDOR_DICTIONARY.get(vendor, {}).get(code)
+
+
 def is_grouped(code, vendor):
-    e = A.get_avp_dictionary_entry(code, vendor)
+    e = dict_entry(code, vendor)
     return e is not None and issubclass(e["type"], A.AvpGrouped)
 
 
